@@ -269,7 +269,10 @@ def run_case(case):
                         if not isinstance(i, int) or not (1 <= i <= len(rows)):
                             add('printer_content', 'printer row index %r out of range for %s' % (i, name), 'printer/content')
                             break
-                        want = [str(rows[i - 1].get(f)) for f in fnames]
+                        def cell(v):        # printer truncates long cells (max_cell_size=100)
+                            v = str(v)
+                            return v[:100] + ' ...' if len(v) > 100 else v
+                        want = [cell(rows[i - 1].get(f)) for f in fnames]
                         if [str(x) for x in pr[1:]] != want:
                             add('printer_content', 'printer shows row %d of %s as %r, the stream at its position has %r'
                                 % (i, name, pr[1:], want), 'printer/content')
